@@ -46,6 +46,8 @@ def rProblem (pb : Problem R) (y : Nat → R) : List Json :=
   ++ rList pb.dim (fun k => (pb.bounds k).1) ++ rList pb.dim (fun k => (pb.bounds k).2)
   ++ [rNat pb.cons.length] ++ pb.cons.flatMap (fun c => [rNat (if c.isEq then 1 else 0), rVal (c.fn y)])
   ++ [rNat (if pb.callback then 1 else 0)]
+  ++ [match pb.ftol with | some t => rVal t | none => rVal (XRat.ofRat (-1))]
+  ++ [match pb.maxiter with | some k => rNat k | none => rVal (XRat.ofRat (-1))]
 
 def solveOp (op : String) (j : Json) : Except String Json := do
   match op with
@@ -74,9 +76,12 @@ def solveOp (op : String) (j : Json) : Except String Json := do
       let tol ← match fld? j "ftol" with
         | some .null | none => pure (XRat.ofRat ((1 : Rat) / 1000000))
         | some tj => jRat tj
+      let maxiter ← match fld? j "maxiter" with
+        | some .null | none => pure 1000
+        | some mj => jNat mj
       if op = "solve.wrap" then
         let r ← jResult (← fld j "res")
-        match solve d P s0? prox cb tol (fun _ => r) with
+        match solve d P s0? prox cb tol maxiter (fun _ => r) with
         | .error (.result _) => pure (.arr #[rNat 0])
         | .error .fixedInfeasible => pure (.arr #[rNat 3])
         | .ok (S, some _) => pure (.arr ([rNat 1, rNat d.rows, rNat d.n] ++ rList d.dim (flat d.n S)).toArray)
@@ -85,7 +90,7 @@ def solveOp (op : String) (j : Json) : Except String Json := do
         if allFixed d.dim d.flatBounds then pure (.arr #[])
         else
           let y ← jVec (← fld j "probe")
-          pure (.arr (rProblem (solveProblem d P (startPoint d s0?) prox cb) y).toArray)
+          pure (.arr (rProblem ((solveProblem d P (startPoint d s0?) prox cb).withOpts tol maxiter) y).toArray)
   | "solve.step_wrap" | "solve.step_args" => do
       let s ← jVec (← fld j "s")
       let a ← jRat (← fld j "stepsize")
